@@ -147,6 +147,12 @@ impl Ctx {
         (i % self.nshards as u64) as usize == self.shard
     }
 
+    /// Restart the enumeration counter. Every deterministic enumeration block calls this first, so that
+    /// all shards partition the block identically whatever (seed-dependent) work preceded it.
+    pub fn align(&mut self) {
+        self.enum_index = 0;
+    }
+
     /// Announce the case about to run (only formatted in paranoid mode, where it is flushed to a
     /// file so that a process abort can be attributed to a case).
     pub fn begin(&mut self, desc: impl FnOnce() -> String) {
